@@ -5,7 +5,10 @@
 (*                                                                         *)
 (* One episode = one content under two spellings (a: the base spelling,    *)
 (* b: a variant), each loaded with vnadata_load / vnadata_fload into a     *)
-(* fresh object.  An SLoad event carries the content class c, the spelling *)
+(* fresh object (grp "fresh"), and then both loaded one after the other    *)
+(* (either order) into ONE object that first loaded a file of another kind *)
+(* (PLoad; grp "chain"): what the object held before must not matter, the  *)
+(* extension decides and the stored file type is only the fallback.  An SLoad event carries the content class c, the spelling *)
 (* s, what the independent writer (harness/tsgen.py) reports it wrote      *)
 (* (gen: option tokens, numbers per data line, keyword order), the         *)
 (* outcome of the call, the discrete projection of the loaded object and   *)
@@ -89,12 +92,13 @@ TSLoad ==
             Chk((d.ok /\ ev.ok = 1) => ev.obs.valsOK = 1,
                 <<l, "SLoad", "valsOK", <<d.fmt, d.mf, d.ord, d.normalised>> >>),
             \* two spellings of one content load to the same data
-            Chk((ev.which = "b" /\ first.phase = "a" /\ first.ok = 1 /\ ev.ok = 1
+            Chk((ev.pos = 2 /\ first.phase = "a" /\ first.grp = ev.grp
+                   /\ first.ok = 1 /\ ev.ok = 1
                    /\ SameContent(c, first.s, s)) => ev.pairOK = 1,
                 <<l, "SLoad", "pairOK", 1>>)
           >>)
-       /\ first' = IF ev.which = "a"
-                   THEN [phase |-> "a", s |-> s, ok |-> ev.ok]
+       /\ first' = IF ev.pos = 1
+                   THEN [phase |-> "a", s |-> s, ok |-> ev.ok, grp |-> ev.grp]
                    ELSE first
 
 (* NPD: the header lines in any order *)
@@ -122,13 +126,21 @@ TNLoad ==
             Chk((good /\ ev.ok = 1) => ev.obs.freqOK = 1, <<l, "NLoad", "freqOK", 1>>),
             Chk((good /\ ev.ok = 1) => ev.obs.z0OK = 1, <<l, "NLoad", "z0OK", c.z0k>>),
             Chk((good /\ ev.ok = 1) => ev.obs.valsOK = 1, <<l, "NLoad", "valsOK", s.fmt>>),
-            Chk((ev.which = "b" /\ first.phase = "a" /\ first.ok = 1 /\ ev.ok = 1
+            Chk((ev.pos = 2 /\ first.phase = "a" /\ first.grp = ev.grp
+                   /\ first.ok = 1 /\ ev.ok = 1
                    /\ NpdSameContent(c, first.s, s)) => ev.pairOK = 1,
                 <<l, "NLoad", "pairOK", 1>>)
           >>)
-       /\ first' = IF ev.which = "a"
-                   THEN [phase |-> "a", s |-> s, ok |-> ev.ok]
+       /\ first' = IF ev.pos = 1
+                   THEN [phase |-> "a", s |-> s, ok |-> ev.ok, grp |-> ev.grp]
                    ELSE first
+
+(* the reused object first loads a well-formed file of another kind *)
+TPLoad ==
+    LET ev == TraceLog[l]
+    IN /\ ev.e = "PLoad"
+       /\ nbad' = nbad + SumChecks(<< Chk(Succeeded(ev), <<l, "PLoad", "ok", TRUE>>) >>)
+       /\ first' = None
 
 TEnd ==
     LET ev == TraceLog[l]
@@ -139,7 +151,7 @@ TEnd ==
 TNext ==
     /\ l <= Len(TraceLog)
     /\ l' = l + 1
-    /\ (TReset \/ TSLoad \/ TNLoad \/ TEnd)
+    /\ (TReset \/ TSLoad \/ TNLoad \/ TPLoad \/ TEnd)
 
 TraceSpec == TInit /\ [][TNext]_tvars
 =============================================================================
